@@ -88,6 +88,8 @@ def cli_gen(profile, n_quick, n_thorough, relative=False):
             c = gen_program(rng, PROFILES[profile], tier)
             if relative and rng.random() < 0.8:
                 c['cli_relative'] = rng.choice(['srcdir', 'parent'])
+            if rng.random() < 0.5:
+                c['preseed_out'] = rng.choice([1, 300, 70000])
             # command-line edge values of the window options
             r = rng.random()
             if r < 0.35:
